@@ -11,7 +11,7 @@ def probe_rules(n):
     return [ExternRule("Probe%d" % i, ["vfrt", "vfu", "probe_%d" % i]) for i in range(n)]
 
 
-NFAM = 11
+NFAM = 12
 
 
 def fam(index):
@@ -98,6 +98,19 @@ def fam(index):
         ins = ["a = 1 . 2;", "a=1.2;", "a = 1.2 !", "a = 12 . 345;", "a = 1 .2", "k : foo", "k : foo # 7", "k:bar#12!", "k : zz !", "q : memo", "x = 1", ""]
         ins2 = ["[<ab>]", "[< ab >]", "[<ab>)", "[ <ab>]", "[<a b>]", "[<x> ]"]
         return g, {"Ss": ins, "Tight": ins2}, []
+    if k == 11:
+        # one position reached along different paths - through a user (extern) function, through literals, through a
+        # character class: the memoized rule tried there afterwards is the same (rule, position) pair every time
+        ext = ExternRule("Word", ["vfrt", "vfu", "ext_ident"])
+        tail = Rule("Tail", Cho([Seq([Ref("Probe0"), Ref("Num", "n")])]), ["memoize"])
+        num = Rule("Num", Cho([Seq([Ref("Probe1"), Grp(Cho([Seq([Clo(Cho([Seq([Rng("0", "9")])]), True)])]))])]), ["memoize", "string", "no_skip_ws"])
+        s = Rule("Ss", Cho([Seq([Ref("Word", "w"), Ref("Tail", "t"), L("!"), Eoi()]),
+                            Seq([L("abc"), Ref("Tail", "t"), L("?"), Eoi()]),
+                            Seq([Clo(Cho([Seq([Rng("a", "z")])]), True), Ref("Tail", "t"), L(";"), Eoi()]),
+                            Seq([Ref("Word", "w"), Ref("Tail", "t"), Eoi()])]), ["export", "no_skip_ws"])
+        g = Grammar([s, tail, num, ext] + probe_rules(2))
+        ins = ["abc123?", "abc123!", "abc123;", "abc123", "abc?", "abc", "xy7;", "xy7#", "q1", "abc12x", ""]
+        return g, {"Ss": ins}, []
     if k == 0:
         # nested brackets, three alternatives sharing the prefix '(' A
         a = Rule("Aa", Cho([Seq([Ref("Probe0"), Grp(Cho([
